@@ -6,3 +6,5 @@ import Dicom.Props.C05
 #print axioms Dicom.C05.act_is_table_9_10
 #print axioms Dicom.C05.provider_follows_machine
 #print axioms Dicom.C05.reader_close_is_e17
+#print axioms Dicom.C05.one_event_per_poll
+#print axioms Dicom.C05.user_primitives_in_order
